@@ -91,6 +91,8 @@ pub fn lookup<'a>(obj: &'a Obj, path: &[String]) -> Lookup<'a> {
         },
         [k, rest @ ..] => match obj_get(obj, k) {
             Some(Value::Sub(o)) => lookup(o, rest),
+            // everything below an explicitly defaulted group (`"group": null`) is explicitly defaulted
+            Some(v @ Value::Null) => Lookup::Val(v),
             _ => Lookup::Absent,
         },
     }
@@ -333,7 +335,10 @@ impl<'a> Sem<'a> {
             };
             args.insert(name.trim().to_string(), v);
         }
-        subst(&target, &args, &tloc).map_err(|k| err(k))
+        // literal counts pick the plural form with the rules of the referencing locale (the statement's "same locale"),
+        // also when the target was found in the locale a null falls back to
+        let _ = &tloc;
+        subst(&target, &args, loc).map_err(|k| err(k))
     }
 }
 
@@ -352,7 +357,8 @@ pub fn subst(target: &[RPiece], args: &BTreeMap<String, Vec<RPiece>>, locale: &s
                 name: name.clone(),
                 children: subst(children, args, locale)?,
             }),
-            RPiece::Range(r) => match args.get("count") {
+            // the count may have been renamed by an earlier reference: the argument that matters is the one of that name
+            RPiece::Range(r) => match args.get(&r.count_var) {
                 None => {
                     let mut branches = vec![];
                     for (s, b) in &r.branches {
@@ -385,7 +391,7 @@ pub fn subst(target: &[RPiece], args: &BTreeMap<String, Vec<RPiece>>, locale: &s
                     }
                 },
             },
-            RPiece::Plural(pl) => match args.get("count") {
+            RPiece::Plural(pl) => match args.get(&pl.count_var) {
                 None => {
                     let mut forms = BTreeMap::new();
                     for (f, b) in &pl.forms {
